@@ -465,6 +465,19 @@ def jitAdd (h : Holder) (base : Nat) : Holder × Option (Except Err (List Byte))
           | none => (h2, none)
           | some img => (h2, some (.ok (img.take size)))
 
+/-! ### reuse of a CodeHolder -/
+
+/-- `CodeHolder::reinit()`, and equally `reset(kSoft|kHard)` followed by `init()`:
+    `CodeHolder_reset_sections_and_containers` forgets both section vectors, the relocations, the address table section and
+    its entries, and sets the buffer size of the EMBEDDED `.text` section object to 0; `CodeHolder_add_text_section` then
+    re-initialises that same object field by field through `Section_init_data` (id 0, alignment 0, order INT_MIN, offset 0,
+    `_virtual_size = 0`) and `Section_init_name`, and appends it to both vectors.  The model keeps the old `.text` record and
+    overwrites exactly those fields, so that a forgotten field would survive here as it would in C++. -/
+def reinit (h : Holder) : Holder :=
+  let old := (findSec h.secs 0).getD textSection
+  { secs := [{ old with id := 0, order := -2147483648, align := 0, offset := 0, vsize := 0, name := ".text", data := [] }],
+    addrTab := none, entries := [], relocs := [] }
+
 /-! ### histories -/
 
 inductive Op
@@ -475,6 +488,7 @@ inductive Op
   | emitCall (id : Nat) (isJmp : Bool) (addr : Nat)
   | flatten
   | relocate (base : Nat)
+  | reinit
 deriving Repr
 
 def step (h : Holder) : Op → Holder
@@ -485,6 +499,7 @@ def step (h : Holder) : Op → Holder
   | .emitCall id j a => (emitCall h id j (a % U64)).1
   | .flatten => (flatten h).1
   | .relocate b => (relocate h b).1
+  | .reinit => reinit h
 
 def run (ops : List Op) : Holder := ops.foldl step init
 
